@@ -92,6 +92,11 @@ def clause_text(c, pn, vn):
         s += " :- " + ", ".join(premise_text(p, pn, vn) for p in c["body"])
     if c.get("let"):
         s += " |> " + ", ".join("let %s = %s" % (vn(v), term_text(t, vn)) for v, t in c["let"])
+    if c.get("do"):
+        d = c["do"]
+        s += " |> do fn:group_by(%s)" % ", ".join(vn(x) for x in d["group"])
+        for v, fname, args in d["lets"]:
+            s += ", let %s = %s(%s)" % (vn(v), fname, ", ".join(vn(x) for x in args))
     return s + ("." if s.endswith(")") or s.endswith("]") else " .")
 
 
@@ -127,6 +132,11 @@ def clause_vars(c):
     for v, t in c.get("let", []):
         acc.add(v)
         tv(t)
+    if c.get("do"):
+        acc.update(c["do"]["group"])
+        for v, _f, args in c["do"]["lets"]:
+            acc.add(v)
+            acc.update(args)
     return acc
 
 
@@ -299,6 +309,48 @@ def presentations(prog, rng, temporal=False):
     else:
         ps.append(pres_pkgmerge(prog, rng))
     return ps
+
+
+# ------------------------------------------------------------------ aggregating programs
+def gen_aggregating(rng):
+    """A program of C01's generator plus a top layer of aggregating rules (do-transforms
+    with the order-insensitive reducers count / sum / max / min over integers): the
+    rewriting into internal `__tmp` predicates (rewrite/rewrite.go) and the grouping take
+    part in the comparison. One aggregating rule per head predicate (finding F2: several
+    per head share one internal name). No Coq model (do-transforms are C02's)."""
+    g = dc.Gen(rng, False)
+    prog = g.program()
+    cands = [p for p, sig in g.sig.items() if len(sig) >= 2 and sig[0] in "NA" and "N" in sig[1:]]
+    cands += [p for p, sig in g.sig.items() if len(sig) >= 1 and sig[0] in "NA"]
+    top = []
+    nextp = max(g.sig) + 1
+    for _ in range(rng.randint(1, 3)):
+        p = rng.choice(cands)
+        sig = g.sig[p]
+        vs = list(range(1, len(sig) + 1))
+        body = [["atom", dc.atom(p, *[dc.var(i) for i in vs])]]
+        unary = [q for q, s2 in g.sig.items() if s2 == (sig[0],) and q != p]
+        if unary and rng.random() < 0.5:
+            # a second premise: the rule body is moved into an internal predicate first
+            body.append(["atom", dc.atom(rng.choice(unary), dc.var(1))])
+        ncols = [i for i in vs[1:] if sig[i - 1] == "N"]
+        lets = []
+        out = 20
+        if ncols and rng.random() < 0.8:
+            lets.append([out, rng.choice(["fn:sum", "fn:max", "fn:min"]), [rng.choice(ncols)]])
+            out += 1
+        if not lets or rng.random() < 0.5:
+            lets.append([out, "fn:count", []])
+        group = [1] if rng.random() < 0.8 or len(vs) < 2 else [1, 2]
+        head = dc.atom(nextp, *([dc.var(x) for x in group] + [dc.var(l[0]) for l in lets]))
+        prog["clauses"].append({"head": head, "body": body, "let": [], "do": {"group": group, "lets": lets}})
+        top.append(nextp)
+        nextp += 1
+    rng.shuffle(prog["clauses"])
+    prog["layers"] = prog["layers"] + [top]
+    prog["features"] = sorted(set(prog["features"]) | {"aggregate"})
+    prog["nomodel"] = True
+    return prog
 
 
 # ------------------------------------------------------------------ temporal programs
@@ -577,8 +629,8 @@ def run(ck):
                           "pres": presentations(prog, rng, bool(prog.get("temporal"))), "repeat": 8,
                           "features": prog.get("features", []) + ["corpus"]})
     ncorpus = len(items)
-    nplain = ck.n(28, 400)
-    ntemp = ck.n(32, 400)
+    nplain = ck.n(20, 260)
+    ntemp = ck.n(28, 260)
     for _ in range(nplain):
         prog = dc.gen_program(rng, big=(not ck.quick) and rng.random() < 0.4)
         items.append({"origin": "random", "prog": prog, "temporal": False, "pres": presentations(prog, rng),
@@ -587,13 +639,22 @@ def run(ck):
         prog = gen_temporal(rng)
         items.append({"origin": "random-temporal", "prog": prog, "temporal": True,
                       "pres": presentations(prog, rng, True), "features": prog["features"]})
+    nagg = ck.n(8, 100)
+    for _ in range(nagg):
+        prog = gen_aggregating(rng)
+        items.append({"origin": "random-aggregate", "prog": prog, "temporal": False, "pres": presentations(prog, rng),
+                      "features": prog["features"]})
     nexh = 0
     if not ck.quick:
+        fams = {}
         for fam, pres, temporal in exhaustive_presentations():
-            items.append({"origin": "exhaustive:" + fam, "prog": None, "temporal": temporal, "pres": [pres],
+            fams.setdefault(fam, (temporal, []))[1].append(pres)
+            nexh += 1
+        for fam, (temporal, plist) in sorted(fams.items()):
+            # one item per family: all 576 presentations are compared with each other
+            items.append({"origin": "exhaustive:" + fam, "prog": None, "temporal": temporal, "pres": plist,
                           "expect_count": 4 if fam == "chain" else 8, "repeat": 2, "features": ["exhaustive"],
                           "family": fam})
-            nexh += 1
     coqchk = None
     if not ck.quick and not ck.proof_broken:
         import subprocess
@@ -704,7 +765,7 @@ def run(ck):
                 ck.violation(rep)
             continue
         # model comparisons (plain programs in the modelled fragment)
-        if it["prog"] is not None and not it["temporal"]:
+        if it["prog"] is not None and not it["temporal"] and not it["prog"].get("nomodel"):
             base = [x for x in obs if x[0] == 0]
             ren = [x for x in obs if it["pres"][x[0]].kind == "renamed"]
             try:
@@ -722,7 +783,7 @@ def run(ck):
         # the verified observer on one pair of presentations per program
         oks = [x for x in concl if x[2][0] == "ok"]
         if len(oks) >= 2 and (it["origin"].startswith("corpus") or
-                              (it["origin"].startswith("random") and (it["temporal"] or rng.random() < 0.35))):
+                              (it["origin"].startswith("random") and rng.random() < (0.6 if it["temporal"] else 0.3))):
             a, b = oks[0], rng.choice(oks[1:])
             terms.append(coq(C("CSame", [cq_fact_any(f) for f in a[2][2]], [cq_fact_any(f) for f in b[2][2]])))
             twhere.append((i, "same"))
@@ -774,13 +835,13 @@ def run(ck):
         if i in rejected:
             continue
         if set(it.get("features", [])) & {"recursive", "neg", "cmp", "same-round", "temporal", "corpus", "exhaustive",
-                                            "operator", "join"}:
+                                            "operator", "join", "aggregate"}:
             nontrivial.add(json.dumps(it["pres"][0].units))
     cov = {"evaluations": evaluations, "programs": len(items), "presentations": len(go_cases),
            "distinct_nontrivial": len(nontrivial),
            "rule": "evaluations = engine runs (parse + Analyze + EvalProgram each); a program counts once per distinct base "
                    "text; non-trivial = recursion, negation, comparison, same-round join, temporal annotation or operator "
-                   "present (corpus %d, random plain %d, random temporal %d, exhaustive %d)" % (ncorpus, nplain, ntemp, nexh),
+                   "present (corpus %d, random plain %d, random temporal %d, random aggregating %d, exhaustive %d)" % (ncorpus, nplain, ntemp, nagg, nexh),
            "exhaustive": nexh > 0,
            "exhaustive_scope": ("all 24 line orders x all 24 assignments of the predicate names a,b,c,d for the 4-line temporal "
                                 "chain (F4 shape) and for the same-round join program (F1 shape), each plain and "
